@@ -748,7 +748,7 @@ func (x *e1) checkEnd(connAlive bool, faultFree bool) {
 			// (a client that closes the stream without having waited for its outcome
 			// races with the server's SendError: the close may terminate the server's
 			// stream first, and then nothing is sent)
-			abandoned := spec.Shape != ShUnary && r.C.ClosedByMe && r.C.FirstErr == nil
+			abandoned := spec.Shape != ShUnary && r.C.ClosedByMe && (r.C.FirstErr == nil || r.C.CloseStep <= firstRecvErrStep(r.C))
 			if !found && !x.clientEndedBefore(r) && x.serverMovedOn(r) && !abandoned {
 				x.viol("handler-error", "handler returned an error but no error packet with its text was sent: error-class="+errFamily(spec.HErr), fmt.Sprintf("rpc%d want %q", k, trunc(want, 60)))
 			}
@@ -1195,4 +1195,14 @@ func handlerHalfCloses(spec *RPCSpec) bool {
 		}
 	}
 	return false
+}
+
+// firstRecvErrStep: the step at which a receive of this side first returned an error.
+func firstRecvErrStep(sd *sideRec) int {
+	for _, rr := range sd.Recvs {
+		if rr.Err != nil {
+			return rr.Step
+		}
+	}
+	return 1 << 30
 }
